@@ -3,7 +3,7 @@
    whatever the Jacobian, the L/U factors, Ynew, the initial forcing, the stage vectors K and the error vector
    held before (of the right shape).  Bisimulation over every accept / reject history. *)
 From Model Require Import Base Rosenbrock.
-From Coq Require Import Lia Ring.
+From Coq Require Import Lia Ring QArith Qabs Lqa.
 Local Open Scope nat_scope.
 
 Section RosScratch.
@@ -782,4 +782,117 @@ Section RosScratch.
       intros i Hi. destruct (G (p_stages p) (le_n _)) as [(_ & _ & _ & _ & HKs & _) _]. apply HKs. exact Hi.
     Qed.
   End StageSpec.
+
+  (* ---------------- C06: 0 <= final_time_ <= time_step in exact arithmetic ----------------
+     For every scalar structure that embeds into the ordered field of the rationals (phi: a homomorphism for + - *,
+     reflecting < and <=, commuting with abs) - the rationals themselves, and binary64 on every run in which no
+     operation rounds - and every policy set, history and exit: the time reported lies in [0, time_step].
+     Premises on the controls: round_off, factor_min, factor_max, rejection_factor_decrease not negative, factor_min and
+     rejection_factor_decrease at most 1 (C08_defaults_are_legal proves more for the five built-in sets); on the
+     power oracle: an error norm that is not below 1 gives a raw factor safety / err^(1/order) of at most 1. *)
+  Section TimeBounds.
+    Local Open Scope Q_scope.
+    Variable phi : T -> Q.
+    Hypothesis Hadd : forall a b, phi (nadd N a b) == phi a + phi b.
+    Hypothesis Hsub : forall a b, phi (nsub N a b) == phi a - phi b.
+    Hypothesis Hmul : forall a b, phi (nmul N a b) == phi a * phi b.
+    Hypothesis Hlt : forall a b, ltb a b = true <-> phi a < phi b.
+    Hypothesis Hle : forall a b, leb a b = true <-> phi a <= phi b.
+    Hypothesis Habs : forall a, phi (nabs a) == Qabs (phi a).
+    Hypothesis Hro : 0 <= phi (p_round_off p).
+    Hypothesis Hfmin : 0 <= phi (p_factor_min p) /\ phi (p_factor_min p) <= 1.
+    Hypothesis Hfmax : 0 <= phi (p_factor_max p).
+    Hypothesis Hrd : 0 <= phi (p_rej_dec p) /\ phi (p_rej_dec p) <= 1.
+    Hypothesis Hraw : forall err, ltb err (n1 N) = false -> phi (ndiv N (p_safety p) (pow_inv err (p_elo p))) <= 1.
+
+    Lemma ltb_false a b : ltb a b = false -> phi b <= phi a.
+    Proof.
+      intros E. destruct (Qlt_le_dec (phi a) (phi b)) as [Hl | Hl]; [|exact Hl].
+      apply Hlt in Hl. rewrite Hl in E. discriminate E.
+    Qed.
+    Lemma leb_false a b : leb a b = false -> phi b < phi a.
+    Proof.
+      intros E. destruct (Qlt_le_dec (phi b) (phi a)) as [Hl | Hl]; [exact Hl|].
+      apply Hle in Hl. rewrite Hl in E. discriminate E.
+    Qed.
+    Lemma tmin_cases a b : (tmin N ltb a b = a /\ phi a <= phi b) \/ (tmin N ltb a b = b /\ phi b < phi a).
+    Proof.
+      unfold tmin. destruct (ltb b a) eqn:E; [right; split; [reflexivity | apply Hlt; exact E] | left; split; [reflexivity | apply ltb_false; exact E]].
+    Qed.
+    Lemma tmax_cases a b : (tmax N ltb a b = a /\ phi b <= phi a) \/ (tmax N ltb a b = b /\ phi a < phi b).
+    Proof.
+      unfold tmax. destruct (ltb a b) eqn:E; [right; split; [reflexivity | apply Hlt; exact E] | left; split; [reflexivity | apply ltb_false; exact E]].
+    Qed.
+
+    Definition tinv (ts : T) (l : loop_state) : Prop :=
+      (0 <= phi (l_t l) /\ phi (l_t l) <= phi ts) /\
+      (l_fresh l = false -> 0 <= phi (l_H l) /\ phi (l_H l) <= phi ts - phi (l_t l)).
+
+    Lemma iter_time_bounds ts hm l : tinv ts l ->
+      match iter ts hm l with
+      | inr (l', _) => tinv ts l'
+      | inl (_, t, _, _, _) => 0 <= phi t /\ phi t <= phi ts
+      end.
+    Proof.
+      intros [Ht HH]. rewrite ros_iter_split.
+      assert (Htop : match top_part ts l with
+                     | inl _ => True
+                     | inr (l1, _) => tinv ts l1 /\ l_fresh l1 = false
+                     end).
+      { unfold top_part. destruct (l_fresh l) eqn:Hfr; [|split; [split; [exact Ht | intros _; apply HH; reflexivity] | exact Hfr]].
+        destruct (negb (leb (nadd N (nsub N (l_t l) ts) (p_round_off p)) (n0 N))); [exact I|].
+        destruct (p_max_steps p <? number_of_steps (l_stats l)); [exact I|].
+        destruct (absorbed (l_t l) (l_H l) || leb (l_H l) (p_round_off p)) eqn:E3; [exact I|].
+        apply Bool.orb_false_iff in E3. destruct E3 as [_ E3]. apply leb_false in E3.
+        cbv zeta. split; [|reflexivity]. unfold tinv. cbn [l_t l_H l_fresh]. split; [exact Ht|]. intros _.
+        pose proof (Habs (nsub N ts (l_t l))) as A1. pose proof (Hsub ts (l_t l)) as A2.
+        assert (A3 : Qabs (phi (nsub N ts (l_t l))) == phi ts - phi (l_t l)).
+        { rewrite A2. apply Qabs_pos. destruct Ht as [_ Ht2]. lra. }
+        destruct (tmin_cases (l_H l) (nabs (nsub N ts (l_t l)))) as [[-> Hc] | [-> Hc]]; rewrite ?A1, ?A3 in *; destruct Ht as [Ht1 Ht2]; split; lra. }
+      destruct (top_part ts l) as [st | [l1 ev0]]; [exact Ht|].
+      destruct Htop as [[Ht1 HH1] Hfr1]. specialize (HH1 Hfr1). destruct HH1 as [HHa HHb]. destruct Ht1 as [Hta Htb].
+      unfold attempt_part. cbv zeta.
+      destruct (stages _ _) as [[s2 evs] nf].
+      match goal with |- context [isnan ?e] => set (err := e) end.
+      destruct (isnan err); [split; assumption|].
+      destruct (isinf err); [split; assumption|].
+      destruct (ltb err (n1 N) || ltb (l_H l1) (p_h_min p)) eqn:Eacc.
+      - (* accepted *)
+        unfold tinv. cbn [l_t l_H l_fresh]. pose proof (Hadd (l_t l1) (l_H l1)) as A. split; [split; lra | discriminate].
+      - (* rejected: the next H is not larger *)
+        apply Bool.orb_false_iff in Eacc. destruct Eacc as [Eerr _].
+        unfold tinv. cbn [l_t l_H l_fresh]. split; [split; assumption|]. intros _.
+        set (raw := ndiv N (p_safety p) (pow_inv err (p_elo p))).
+        assert (Hfac : 0 <= phi (tmin N ltb (p_factor_max p) (tmax N ltb (p_factor_min p) raw)) /\
+                       phi (tmin N ltb (p_factor_max p) (tmax N ltb (p_factor_min p) raw)) <= 1).
+        { pose proof (Hraw err Eerr) as R. fold raw in R. destruct Hfmin as [F1 F2].
+          destruct (tmax_cases (p_factor_min p) raw) as [[Em Hc] | [Em Hc]]; rewrite Em;
+            destruct (tmin_cases (p_factor_max p) (p_factor_min p)) as [[E1 Hd] | [E1 Hd]];
+            destruct (tmin_cases (p_factor_max p) raw) as [[E2 He] | [E2 He]]; rewrite ?E1, ?E2; split; lra. }
+        destruct Hfac as [Fa Fb]. destruct Hrd as [R1 R2].
+        destruct (l_reject_more l1).
+        + pose proof (Hmul (l_H l1) (p_rej_dec p)) as A. rewrite A. split; nra.
+        + match goal with |- context [nmul N (l_H l1) ?f] => pose proof (Hmul (l_H l1) f) as A; rewrite A;
+                                                              set (x := phi f) in *; set (h := phi (l_H l1)) in * end.
+          split; nra.
+    Qed.
+
+    Theorem ros_final_time_within_the_interval fuel time_step (s : rstate) :
+      phi (n0 N) == 0 -> 0 <= phi time_step ->
+      let r := solve fuel time_step s in
+      0 <= phi (r_final_time r) /\ phi (r_final_time r) <= phi time_step.
+    Proof.
+      intros H0 Hts. unfold ros_solve. cbv zeta. cbn [r_final_time].
+      assert (G : forall hm fuel0 l tr, tinv time_step l ->
+                 0 <= phi (r_final_time (loop fuel0 time_step hm l tr)) /\
+                 phi (r_final_time (loop fuel0 time_step hm l tr)) <= phi time_step).
+      { intros hm. induction fuel0 as [|f IH]; intros l tr HI; cbn [ros_loop].
+        - cbn [r_final_time]. exact (proj1 HI).
+        - pose proof (iter_time_bounds time_step hm l HI) as Hs.
+          destruct (iter time_step hm l) as [[[[[st t] sts] s1] ev]|[l1 ev]].
+          + cbn [r_final_time]. exact Hs.
+          + apply IH. exact Hs. }
+      apply G. unfold tinv. cbn [l_t l_fresh]. split; [rewrite H0; split; lra | discriminate].
+    Qed.
+  End TimeBounds.
 End RosScratch.
